@@ -183,7 +183,7 @@ func isStructural(name string) bool {
 // exist only for arrays some path writes; a change that stops writing one is harmless, so their
 // disappearance is not reported.
 func isTracked(name string) bool {
-	return isStructural(name) && !strings.HasPrefix(name, "frame:")
+	return name == "in-subset" || isStructural(name) && !strings.HasPrefix(name, "frame:")
 }
 
 func cmdCheck(args []string) int {
@@ -228,8 +228,12 @@ func cmdCheck(args []string) int {
 	os.MkdirAll(filepath.Dir(evPath), 0o755)
 
 	violations := 0
+	coreViolation := false // a solver-decided violation in the session/handler code (history search applies)
 	violate := func(fn, obl, reason, detail, model, query string, hasInput bool) {
 		violations++
+		if strings.Contains(fn, "websocket.") || strings.Contains(fn, "models.") || strings.Contains(fn, "modules/vikja.") || strings.Contains(fn, "modules/odal.") {
+			coreViolation = true
+		}
 		rp := filepath.Join(replayDir, fmt.Sprintf("%03d.json", violations))
 		rec := map[string]any{
 			"property": *prop, "function": fn, "obligation": obl, "reason": reason,
@@ -391,8 +395,13 @@ func cmdCheck(args []string) int {
 				trusted["trusted-contract:"+u] = true
 			}
 		}
+		if fr.Err == "" && swept[k] {
+			// a swept function inside the supported subset: if a change pushes it outside, that is reported
+			// (vanished:in-subset) instead of silently dropping its lock-discipline obligations
+			structural = append(structural, k+"#in-subset")
+		}
 		if fr.Err != "" {
-			// fail closed, except for pure sweep functions outside the supported subset
+			// fail closed, except for pure sweep functions that were never inside the supported subset
 			if swept[k] && strings.HasPrefix(fr.Err, "unsupported") {
 				undecided = append(undecided, k+": "+fr.Err)
 			} else {
@@ -543,7 +552,14 @@ func cmdCheck(args []string) int {
 				continue
 			}
 			if want != "" && !have[want] {
-				violate(strings.SplitN(want, "#", 2)[0], "vanished:"+strings.SplitN(want, "#", 2)[1], "an obligation that is generated on the unchanged tree was not generated", "", "", "", false)
+				why := "an obligation that is generated on the unchanged tree was not generated"
+				if strings.HasSuffix(want, "#in-subset") {
+					if e.funcs[strings.TrimSuffix(want, "#in-subset")] == nil {
+						continue // the function was removed or renamed: nothing of it is left to check
+					}
+					why = "the function could be analysed on the unchanged tree and no longer can (it left the supported subset): its obligations of this property are not checked"
+				}
+				violate(strings.SplitN(want, "#", 2)[0], "vanished:"+strings.SplitN(want, "#", 2)[1], why, "", "", "", false)
 			}
 		}
 	} else {
@@ -585,6 +601,38 @@ func cmdCheck(args []string) int {
 	}
 	writeEvidence(evPath, ev)
 	fmt.Printf("property %s (%s): %d functions, %d obligations, %d discharged, %d known findings, %d violations, %.1fs\n", *prop, *tier, len(keys), total, discharged, known, violations, time.Since(t0).Seconds())
+	if violations > 0 && coreViolation && *prop != "C01" {
+		// Search for a concrete failing history on the real handlers (the bounded view-convergence harness of
+		// C01). Informational: the result is attached to the replay files; it may or may not be the defect
+		// the failed obligation points at, so the VIOLATION lines keep their no-failing-input-found suffix.
+		bt := BoundedTest{Pkg: "websocket", Files: []string{"histories_harness_test.go", "c01_views_bounded_test.go"}}
+		if _, err := os.Stat(filepath.Join(*verif, "findings", bt.Files[0])); err == nil {
+			res, out, err := runBounded(*repo, *verif, bt)
+			hs := map[string]any{"what": "bounded history search (TestVerifC01ViewsConvergeBounded) on the current tree", "how_to_reproduce": "tools/run_finding.sh websocket " + strings.Join(bt.Files, " ")}
+			if err != nil {
+				hs["result"] = "could not be run: " + err.Error()
+			} else if pass, ran := res["TestVerifC01ViewsConvergeBounded"]; ran && !pass {
+				hs["result"] = "a failing history was found on the real code"
+				if k := strings.Index(out, "history "); k >= 0 {
+					hs["failing_history"] = trunc(out[k:], 6000)
+				}
+				fmt.Printf("  history search: a concrete failing history on the real handlers is attached to the replay files\n")
+			} else {
+				hs["result"] = "no failing history among the bounded family"
+			}
+			for i := 1; i <= violations; i++ {
+				rp := filepath.Join(replayDir, fmt.Sprintf("%03d.json", i))
+				if data, err := os.ReadFile(rp); err == nil {
+					var rec map[string]any
+					if json.Unmarshal(data, &rec) == nil {
+						rec["history_search"] = hs
+						b, _ := json.MarshalIndent(rec, "", " ")
+						os.WriteFile(rp, b, 0o644)
+					}
+				}
+			}
+		}
+	}
 	if violations > 0 {
 		return 1
 	}
